@@ -7,4 +7,5 @@ if ! git apply -3 "$P" 2>/dev/null; then echo "PATCH DOES NOT APPLY"; git reset 
 cd /verif && bin/check "$ID" --tier "$TIER" 2>&1 | grep -E "VIOLATION|KNOWN|HARNESS|signature" | head -20
 RC=${PIPESTATUS[0]}
 cd /repo && git reset -q --hard HEAD
+cd /verif && bin/check build >/dev/null 2>&1   # never leave a driver built from a patched tree behind
 echo "check exit=$RC"
